@@ -9,7 +9,7 @@ PROPERTY = 'C05'
 LEVEL = 'exploration'
 RULE = ('(i) slash-context product, enumerated: nesting context (top level, inside function bodies within open parentheses/brackets/object literals, blocks, loop bodies, switch, try) x preceding construct (header parens of if/for/for-in/while/with/'
         'do-while, call/grouping/parameter parens, every kind of closing brace, `]`, identifiers, literals, this/null/'
-        'true/false, keyword operators and statement keywords, reserved words as property names, prefix and postfix '
+        'true/false, keyword operators and statement keywords, reserved words as property names (also with white space, line breaks or comments between the dot and the name), prefix and postfix '
         '++/--, every punctuator after which an operand is expected) x layout (nothing, space, tab, NBSP, LF, block '
         'comment, line comment, multi-line comment, comment between spaces) x continuation (`/ 2 / 1`, '
         '`/re/.test(x)`, `/re/g`, `/=/.x`, `/= 2`); (ii) G1 programs with weights shifted to `/`, `/=` and regex '
@@ -49,6 +49,13 @@ TEMPLATES = [
     # prefix ++/-- with layout before the slash
     '++ @;', '-- @;', 'x = ++ @;', 'x = - -- @;',
 ]
+# layout between the dot and a reserved-word property name (and before the dot)
+for _word in ('in', 'return', 'typeof', 'this', 'if(x)', 'while (b)', 'with(o)', 'for(k)', 'new', 'delete'):
+    for _inner in ('\n', ' /*c*/ ', '//c\n', '\r\n    ', ' ', '/*\n*/'):
+        TEMPLATES.append('a.%s%s @;' % (_inner, _word))
+    TEMPLATES.append('a\n  .%s @;' % _word)
+    TEMPLATES.append('x = a /*c*/ . /*d*/ %s @;' % _word)
+
 LAYOUTS = ['', ' ', '\t', u'\xa0', '\n', '/*c*/', '//c\n', '/*\n*/', ' /*c*/ ', '\r\n', u'\u2028']
 CONTINUATIONS = ['/ 2 / 1', '/re/.test(x)', '/re/g', '/=/.x', '/= 2', '/[/]/.x / 2']
 
